@@ -154,10 +154,11 @@ def print_event(text):
         t0 = parse(text)
     except BaseException:  # noqa
         return []
-    ev = {"typ": "print", "rule": "print", "opt": "", "text": text, "k": 0, "t": project.term(t0), "printed": "", "reparse": "-",
+    ev = {"typ": "print", "rule": "print", "opt": "", "text": text, "k": 0, "t": project.term(t0), "printed": "", "pc": [], "reparse": "-",
           "re": {"k": "c", "n": 0, "d": 1}}
     try:
         ev["printed"] = str(t0)
+        ev["pc"] = [ord(c) for c in ev["printed"]]
         try:
             ev["re"] = project.term(parse(ev["printed"]))
             ev["reparse"] = "ok"
